@@ -12,7 +12,7 @@ pub mod ty;
 
 pub use canon::{canon, canon_strict, has_transient_field, scramble_transients, with_transient_defaults};
 pub use dec::{ref_annotate, ref_decode, ref_decode_forms, ref_zero_width_demand, ref_backref_cost, Annot, AnnotKind, DecErr, ErrKind};
-pub use enc::{ref_encode, ref_encode_forms, ref_encode_quirks, EncErr, Quirks};
+pub use enc::{ref_encode, ref_encode_forms, ref_encode_newer_tuples, ref_encode_quirks, EncErr, Quirks};
 pub use genval::{gen_raw, gen_val, GenCtx};
 pub use rng::Rng;
 pub use ty::*;
